@@ -1736,3 +1736,7 @@ mod tests {
         );
     }
 }
+
+#[cfg(all(test, feature = "verif-mempool"))]
+#[path = "/verif/harness/sequencer/mempool.rs"]
+mod verif;
